@@ -187,6 +187,9 @@ func (g *FG) edgeImpliesDeep(e *GEdge, atom func(c ast.Expr, pol int) bool) bool
 				return false
 			}
 			if def := g.LocalDef(o); def != nil {
+				if g.staleAt(def, e.From) {
+					return false
+				}
 				return condHolds(def, p, deep(depth+1))
 			}
 			if p > 0 {
@@ -201,6 +204,87 @@ func (g *FG) edgeImpliesDeep(e *GEdge, atom func(c ast.Expr, pol int) bool) bool
 		}
 	}
 	return condHolds(e.Cond, e.Pol, deep(0))
+}
+
+// staleAt: can a local variable mentioned in the definition expression be assigned on a path from the definition to the
+// vertex at (without passing the definition again)? Then the flag may describe a value that no longer exists at the branch
+// and the fact is not used.
+func (g *FG) staleAt(def ast.Expr, at *GNode) bool {
+	vars := map[types.Object]bool{}
+	ast.Inspect(def, func(n ast.Node) bool {
+		if id, ok := n.(*ast.Ident); ok {
+			if v, ok := g.Info.Uses[id].(*types.Var); ok && !v.IsField() && v.Pkg() != nil && v.Parent() != v.Pkg().Scope() {
+				vars[v] = true
+			}
+		}
+		return true
+	})
+	if len(vars) == 0 {
+		return false
+	}
+	defNode := g.NodeOf(def)
+	if defNode == nil || at == nil {
+		return true
+	}
+	var writers []*GNode
+	for _, x := range g.Nodes {
+		if x == defNode || x.N == nil {
+			continue
+		}
+		w := false
+		switch s := x.N.(type) {
+		case *ast.AssignStmt:
+			for _, l := range s.Lhs {
+				if id := identOf(l); id != nil {
+					o := g.Info.Uses[id]
+					if o == nil {
+						o = g.Info.Defs[id]
+					}
+					if o != nil && vars[o] {
+						w = true
+					}
+				}
+			}
+		case *ast.IncDecStmt:
+			if o := objOf(g.Info, s.X); o != nil && vars[o] {
+				w = true
+			}
+		case *ast.RangeStmt:
+			for _, l := range []ast.Expr{s.Key, s.Value} {
+				if l != nil {
+					if o := objOf(g.Info, l); o != nil && vars[o] {
+						w = true
+					}
+				}
+			}
+		}
+		if w {
+			writers = append(writers, x)
+		}
+	}
+	if len(writers) == 0 {
+		return false
+	}
+	notDef := func(x *GNode) bool { return x == defNode }
+	fromDef, _ := g.Reach([]*GNode{defNode}, notDef, nil)
+	for _, w := range writers {
+		if !fromDef[w] {
+			continue
+		}
+		if w == at {
+			return true
+		}
+		fromW, _ := g.Reach([]*GNode{w}, notDef, nil)
+		if fromW[at] {
+			return true
+		}
+	}
+	return false
+}
+
+func identOf(e ast.Expr) *ast.Ident {
+	id, _ := unparen(e).(*ast.Ident)
+	return id
 }
 
 // conjUpdates: when every assignment to local o other than its first definition has the form o = o && X, returns the X of
